@@ -10,6 +10,7 @@ Driver for C03 (stateful: one backend). Requests (fields separated by ` | `):
   `reap | id,id`                        → `ok` | `err`
   `setmeta | a:t,a:t`                   → `ok`
   `reindex`                             → `ok` | `err`
+  `reopen`                              → `ok`           `Backend::new` on the existing database
   `upgrade <v>`                         → `ok` | `err`
   `incupdate <uuid> | E`                → `ok` | `err`
   `dump`                                → canonical text of every table (see `dumpText`)
@@ -104,6 +105,7 @@ def handle (s : BeState) (line : String) : BeState × String :=
   | [hd] =>
     match tokens hd with
     | ["reindex"] => reply s (reindex s)
+    | ["reopen"] => (reopen s, "ok")
     | ["upgrade", v] =>
       match v.toInt? with
       | some v => reply s (upgradeReindex v s)
